@@ -1,3 +1,461 @@
-//! C03 bounded native checks (not written yet)
-use super::Report;
-pub fn run() -> Option<Report> { None }
+//! C03 bounded: "measurements do not depend on the coordinate frame", evaluated on the REAL code.
+//! Isometries: 19 rotations (identity, the 9 quarter turns about x / y / z, 3 further elements of the cube group, and
+//! 6 oblique ones: 30 / 45 degrees about an axis, 0.7 rad about (1,2,3), the rotation taking (1,1,1) to x) x 4
+//! translations ((0,0,0), (1,-2,3), (-4,0.5,2.25), (1000,-500,250)); in 2D 8 rotations x 3 translations.  Entities have
+//! small integer / dyadic coordinates.  nalgebra's `T * point` (rotation + translation), `T * vector` (rotation only),
+//! `T.inverse()` and `T * S` are the oracle for "moved by T"; every comparison of floats uses `close` (1e-9 relative).
+//! Queries are chosen without ties (never equidistant from two edges / faces with different answers).
+use super::{close, Report};
+use crate::common::points::{dist, mid_point, transform_points};
+use crate::common::DistMode;
+use crate::geom2::{Curve2, Iso2, Line2, Point2, Segment2, SurfacePoint2, UnitVec2, Vector2};
+use crate::geom3::{Curve3, Iso3, Mesh, Plane3, Point3, PointCloud, PointCloudFeatures, SurfacePoint3, UnitVec3, Vector3};
+use crate::metrology::{Distance2, Distance3, Measurement};
+use crate::{To3D, TransformBy};
+use parry3d_f64::na::{Translation2, Translation3, UnitComplex, UnitQuaternion};
+use std::f64::consts::{FRAC_PI_2, FRAC_PI_4, FRAC_PI_6, PI};
+
+fn cp3(a: &Point3, b: &Point3) -> bool { close(a.x, b.x) && close(a.y, b.y) && close(a.z, b.z) }
+fn cv3(a: &Vector3, b: &Vector3) -> bool { close(a.x, b.x) && close(a.y, b.y) && close(a.z, b.z) }
+fn cp2(a: &Point2, b: &Point2) -> bool { close(a.x, b.x) && close(a.y, b.y) }
+fn cv2(a: &Vector2, b: &Vector2) -> bool { close(a.x, b.x) && close(a.y, b.y) }
+fn p3(x: f64, y: f64, z: f64) -> Point3 { Point3::new(x, y, z) }
+fn p2(x: f64, y: f64) -> Point2 { Point2::new(x, y) }
+fn u3(x: f64, y: f64, z: f64) -> UnitVec3 { UnitVec3::new_normalize(Vector3::new(x, y, z)) }
+fn u2(x: f64, y: f64) -> UnitVec2 { UnitVec2::new_normalize(Vector2::new(x, y)) }
+fn opt_close(a: Option<f64>, b: Option<f64>) -> bool { match (a, b) { (None, None) => true, (Some(x), Some(y)) => close(x, y), _ => false } }
+
+pub struct I3 { pub name: String, pub t: Iso3, pub exact: bool }
+pub struct I2 { pub name: String, pub t: Iso2 }
+
+/// the 3D isometry family (also used by the C19 bounded check for its equivariance clause: `exact` = cube group)
+pub fn isos3() -> Vec<I3> {
+    let x = Vector3::x_axis(); let y = Vector3::y_axis(); let z = Vector3::z_axis();
+    let q = |a: &parry3d_f64::na::Unit<Vector3>, ang: f64| UnitQuaternion::from_axis_angle(a, ang);
+    let rots: Vec<(&str, UnitQuaternion<f64>, bool)> = vec![
+        ("I", UnitQuaternion::identity(), true),
+        ("Rx90", q(&x, FRAC_PI_2), true), ("Rx180", q(&x, PI), true), ("Rx270", q(&x, -FRAC_PI_2), true),
+        ("Ry90", q(&y, FRAC_PI_2), true), ("Ry180", q(&y, PI), true), ("Ry270", q(&y, -FRAC_PI_2), true),
+        ("Rz90", q(&z, FRAC_PI_2), true), ("Rz180", q(&z, PI), true), ("Rz270", q(&z, -FRAC_PI_2), true),
+        ("Rx90*Ry90", q(&x, FRAC_PI_2) * q(&y, FRAC_PI_2), true),
+        ("Rz90*Rx180", q(&z, FRAC_PI_2) * q(&x, PI), true),
+        ("R(1,1,1)120", q(&u3(1.0, 1.0, 1.0), 2.0 * PI / 3.0), true),
+        ("Rz30", q(&z, FRAC_PI_6), false), ("Rx45", q(&x, FRAC_PI_4), false), ("Ry45", q(&y, FRAC_PI_4), false),
+        ("Rz45", q(&z, FRAC_PI_4), false), ("R(1,2,3)0.7", q(&u3(1.0, 2.0, 3.0), 0.7), false),
+        ("R(1,1,1)->x", UnitQuaternion::rotation_between(&Vector3::new(1.0, 1.0, 1.0), &Vector3::x()).unwrap(), false),
+    ];
+    let trans = [(0.0, 0.0, 0.0), (1.0, -2.0, 3.0), (-4.0, 0.5, 2.25), (1000.0, -500.0, 250.0)];
+    let mut out = vec![];
+    for (n, r, e) in rots.iter() { for (a, b, c) in trans.iter() {
+        out.push(I3 { name: format!("T=[{} then +({},{},{})]", n, a, b, c), t: Iso3::from_parts(Translation3::new(*a, *b, *c), *r), exact: *e });
+    } }
+    out
+}
+pub fn isos2() -> Vec<I2> {
+    let angs = [("0", 0.0), ("90", FRAC_PI_2), ("180", PI), ("270", -FRAC_PI_2), ("30", FRAC_PI_6), ("45", FRAC_PI_4), ("-45", -FRAC_PI_4), ("2rad", 2.0)];
+    let trans = [(0.0, 0.0), (3.0, -1.5), (1000.0, -250.0)];
+    let mut out = vec![];
+    for (n, a) in angs.iter() { for (tx, ty) in trans.iter() {
+        out.push(I2 { name: format!("T=[rot {} then +({},{})]", n, tx, ty), t: Iso2::from_parts(Translation2::new(*tx, *ty), UnitComplex::new(*a)) });
+    } }
+    out
+}
+// partner isometry for the composition clause
+fn partner(i: usize, n: usize) -> usize { (i * 7 + 3) % n }
+
+fn queries3() -> Vec<Point3> { vec![p3(1.0, 2.0, 3.0), p3(-0.5, 0.25, 4.0), p3(2.0, -3.0, 0.5)] }
+fn queries2() -> Vec<Point2> { vec![p2(1.0, 2.0), p2(-0.5, 0.25), p2(2.0, -3.0)] }
+
+// ------------------------------------------------------------------------------------------------ surface points
+fn surface_points3(r: &mut Report, isos: &[I3]) {
+    let sps = [SurfacePoint3::new(p3(0.5, -1.0, 2.0), u3(0.0, 0.0, 1.0)), SurfacePoint3::new(p3(0.0, 0.0, 0.0), u3(1.0, 2.0, 2.0)),
+        SurfacePoint3::new(p3(-2.0, 0.75, 1.0), u3(1.0, -1.0, 0.0))];
+    for (i, it) in isos.iter().enumerate() { let t = &it.t; let s = &isos[partner(i, isos.len())].t;
+        for sp in sps.iter() {
+            r.case();
+            let d = || format!("SurfacePoint3 {{ point: {:?}, normal: {:?} }} {}", sp.point.coords.as_slice(), sp.normal.as_slice(), it.name);
+            let m = sp.transformed(t);
+            r.check(cp3(&m.point, &(t * sp.point)) && cv3(&m.normal.into_inner(), &(t * sp.normal.into_inner())), "SurfacePoint3::transformed: the point moves by T, the normal only rotates", d);
+            let m2 = t * sp; let m3 = t * *sp;
+            r.check(cp3(&m2.point, &m.point) && cv3(&m2.normal, &m.normal) && cp3(&m3.point, &m.point) && cv3(&m3.normal, &m.normal), "&Iso3 * SurfacePoint3 equals SurfacePoint3::transformed", d);
+            for q in queries3().iter() { let tq = t * q;
+                let dq = || format!("{} query {:?}", d(), q.coords.as_slice());
+                r.check(close(m.scalar_projection(&tq), sp.scalar_projection(q)), "SurfacePoint3::scalar_projection is invariant", dq);
+                r.check(cp3(&m.projection(&tq), &(t * sp.projection(q))), "SurfacePoint3::projection commutes with T", dq);
+                r.check(close(m.planar_distance(&tq), sp.planar_distance(q)), "SurfacePoint3::planar_distance is invariant", dq);
+            }
+            for l in [-1.5, 0.0, 2.0] {
+                r.check(cp3(&m.at_distance(l), &(t * sp.at_distance(l))), "SurfacePoint3::at_distance commutes with T", || format!("{} distance {}", d(), l));
+                let sh = sp.shift(l).transformed(t); let sh2 = m.shift(l);
+                r.check(cp3(&sh.point, &sh2.point) && cv3(&sh.normal, &sh2.normal), "SurfacePoint3::shift commutes with T", || format!("{} offset {}", d(), l));
+            }
+            let rv = sp.reversed().transformed(t); let rv2 = m.reversed();
+            r.check(cp3(&rv.point, &rv2.point) && cv3(&rv.normal, &rv2.normal), "SurfacePoint3::reversed commutes with T", d);
+            let back = m.transformed(&t.inverse());
+            r.check(cp3(&back.point, &sp.point) && cv3(&back.normal, &sp.normal), "SurfacePoint3: T then T^-1 restores the surface point", d);
+            let c1 = sp.transformed(&(t * s)); let c2 = sp.transformed(s).transformed(t);
+            r.check(cp3(&c1.point, &c2.point) && cv3(&c1.normal, &c2.normal), "SurfacePoint3: transforming by a composition equals transforming in sequence", d);
+        }
+    }
+}
+fn surface_points2(r: &mut Report, isos: &[I2]) {
+    let sps = [SurfacePoint2::new(p2(0.5, -1.0), u2(0.0, 1.0)), SurfacePoint2::new(p2(0.0, 0.0), u2(3.0, 4.0)), SurfacePoint2::new(p2(-2.0, 0.75), u2(1.0, -1.0))];
+    for (i, it) in isos.iter().enumerate() { let t = &it.t; let s = &isos[partner(i, isos.len())].t;
+        for sp in sps.iter() {
+            r.case();
+            let d = || format!("SurfacePoint2 {{ point: {:?}, normal: {:?} }} {}", sp.point.coords.as_slice(), sp.normal.as_slice(), it.name);
+            let m = sp.transformed(t);
+            r.check(cp2(&m.point, &(t * sp.point)) && cv2(&m.normal.into_inner(), &(t * sp.normal.into_inner())), "SurfacePoint2::transformed: the point moves by T, the normal only rotates", d);
+            let m2 = t * sp; let m3 = t * *sp;
+            r.check(cp2(&m2.point, &m.point) && cv2(&m2.normal, &m.normal) && cp2(&m3.point, &m.point) && cv2(&m3.normal, &m.normal), "&Iso2 * SurfacePoint2 equals SurfacePoint2::transformed", d);
+            for q in queries2().iter() { let tq = t * q;
+                let dq = || format!("{} query {:?}", d(), q.coords.as_slice());
+                r.check(close(m.scalar_projection(&tq), sp.scalar_projection(q)), "SurfacePoint2::scalar_projection is invariant", dq);
+                r.check(cp2(&m.projection(&tq), &(t * sp.projection(q))), "SurfacePoint2::projection commutes with T", dq);
+                r.check(close(m.planar_distance(&tq), sp.planar_distance(q)), "SurfacePoint2::planar_distance is invariant", dq);
+            }
+            for l in [-1.5, 0.0, 2.0] {
+                r.check(cp2(&m.at_distance(l), &(t * sp.at_distance(l))), "SurfacePoint2::at_distance commutes with T", || format!("{} distance {}", d(), l));
+            }
+            let back = m.transformed(&t.inverse());
+            r.check(cp2(&back.point, &sp.point) && cv2(&back.normal, &sp.normal), "SurfacePoint2: T then T^-1 restores the surface point", d);
+            let c1 = sp.transformed(&(t * s)); let c2 = sp.transformed(s).transformed(t);
+            r.check(cp2(&c1.point, &c2.point) && cv2(&c1.normal, &c2.normal), "SurfacePoint2: transforming by a composition equals transforming in sequence", d);
+        }
+    }
+}
+
+// ------------------------------------------------------------------------------------------------ planes
+fn plane_same(a: &Plane3, b: &Plane3) -> bool { cv3(&a.normal, &b.normal) && close(a.d, b.d) }
+fn planes(r: &mut Report, isos: &[I3]) {
+    let pls = [Plane3::new(u3(0.0, 0.0, 1.0), 0.0), Plane3::new(u3(1.0, 2.0, 2.0), 1.5), Plane3::new(u3(2.0, -1.0, 2.0), -2.0), Plane3::new(u3(1.0, 1.0, 0.0), 0.75)];
+    let sps = [SurfacePoint3::new(p3(0.5, -1.0, 2.0), u3(0.0, 0.0, 1.0)), SurfacePoint3::new(p3(1.0, 0.0, -1.0), u3(1.0, 2.0, 2.0)), SurfacePoint3::new(p3(-2.0, 0.75, 1.0), u3(1.0, -1.0, 0.0))];
+    for (i, it) in isos.iter().enumerate() { let t = &it.t; let s = &isos[partner(i, isos.len())].t;
+        for pl in pls.iter() {
+            r.case();
+            let d = || format!("Plane3 {{ normal: {:?}, d: {} }} {}", pl.normal.as_slice(), pl.d, it.name);
+            let m = pl.transform_by(t);
+            r.check(cv3(&m.normal.into_inner(), &(t * pl.normal.into_inner())), "Plane3::transform_by: the normal only rotates", d);
+            r.check(close(m.normal.norm(), 1.0), "Plane3::transform_by: the normal stays a unit vector", d);
+            for q in queries3().iter() { let tq = t * q;
+                let dq = || format!("{} query {:?}", d(), q.coords.as_slice());
+                r.check(close(m.signed_distance_to_point(&tq), pl.signed_distance_to_point(q)), "Plane3::transform_by: T.p is as far (signed) from T.plane as p from the plane", dq);
+                r.check(close(m.distance_to_point(&tq), pl.distance_to_point(q)), "Plane3::distance_to_point is invariant", dq);
+                r.check(cp3(&m.project_point(&tq), &(t * pl.project_point(q))), "Plane3::project_point commutes with T", dq);
+            }
+            // a point of the plane stays on the moved plane
+            let on = pl.project_point(&p3(1.0, 2.0, 3.0));
+            r.check(m.signed_distance_to_point(&(t * on)).abs() <= 1e-9 * (1.0 + (t * on).coords.norm()), "Plane3::transform_by: points of the plane move onto the moved plane", d);
+            for sp in sps.iter() {
+                let ds = || format!("{} surface point ({:?}, {:?})", d(), sp.point.coords.as_slice(), sp.normal.as_slice());
+                r.check(opt_close(m.intersection_distance(&sp.transformed(t)), pl.intersection_distance(sp)), "Plane3::intersection_distance is invariant", ds);
+            }
+            r.check(plane_same(&m.transform_by(&t.inverse()), pl), "Plane3: T then T^-1 restores the plane", d);
+            r.check(plane_same(&pl.transform_by(&(t * s)), &pl.transform_by(s).transform_by(t)), "Plane3: transforming by a composition equals transforming in sequence", || format!("{} after {}", d(), isos[partner(i, isos.len())].name));
+        }
+    }
+}
+
+// ------------------------------------------------------------------------------------------------ segments, point lists
+fn segments(r: &mut Report, isos: &[I2]) {
+    let segs = [Segment2 { a: p2(0.0, 0.0), b: p2(2.0, 0.0) }, Segment2 { a: p2(-1.0, 0.5), b: p2(2.0, 4.5) }, Segment2 { a: p2(1.0, 1.0), b: p2(1.0, -2.5) }];
+    for (i, it) in isos.iter().enumerate() { let t = &it.t; let s = &isos[partner(i, isos.len())].t;
+        for sg in segs.iter() {
+            r.case();
+            let d = || format!("Segment2 {{ a: {:?}, b: {:?} }} {}", sg.a.coords.as_slice(), sg.b.coords.as_slice(), it.name);
+            let m = sg.transform_by(t);
+            r.check(cp2(&m.a, &(t * sg.a)) && cp2(&m.b, &(t * sg.b)), "Segment2::transform_by moves both end points by T", d);
+            r.check(close(dist(&m.a, &m.b), dist(&sg.a, &sg.b)), "Segment2: length is invariant", d);
+            r.check(cv2(&m.dir(), &(t * sg.dir())) && cp2(&m.origin(), &(t * sg.origin())), "Segment2: origin moves, direction only rotates", d);
+            for f in [0.0, 0.25, 0.5, 1.0, 1.5] { r.check(cp2(&m.at(f), &(t * sg.at(f))), "Segment2::at commutes with T", || format!("{} parameter {}", d(), f)); }
+            // clearly inside / clearly outside the diameter disk (never on its boundary)
+            for f in [0.25, 0.5, 0.75, -0.5, 1.5] { let q = sg.at(f); r.check(m.is_on(&(t * q)) == sg.is_on(&q), "Segment2::is_on is invariant", || format!("{} point at parameter {}", d(), f)); }
+            r.check(cp2(&mid_point(&m.a, &m.b), &(t * mid_point(&sg.a, &sg.b))), "mid_point commutes with T", d);
+            let back = m.transform_by(&t.inverse());
+            r.check(cp2(&back.a, &sg.a) && cp2(&back.b, &sg.b), "Segment2: T then T^-1 restores the segment", d);
+            let c1 = sg.transform_by(&(t * s)); let c2 = sg.transform_by(s).transform_by(t);
+            r.check(cp2(&c1.a, &c2.a) && cp2(&c1.b, &c2.b), "Segment2: transforming by a composition equals transforming in sequence", d);
+        }
+    }
+}
+fn point_lists(r: &mut Report, isos: &[I3]) {
+    let pts = vec![p3(0.0, 0.0, 0.0), p3(1.0, 0.5, -2.0), p3(-3.0, 2.25, 1.0), p3(4.0, 4.0, 4.0)];
+    let normals = vec![u3(0.0, 0.0, 1.0), u3(1.0, 2.0, 2.0), u3(-1.0, 1.0, 0.0), u3(2.0, 3.0, 6.0)];
+    let colors = vec![[1u8, 2, 3], [255, 0, 7], [9, 9, 9], [0, 128, 64]];
+    for (i, it) in isos.iter().enumerate() { let t = &it.t; let s = &isos[partner(i, isos.len())].t;
+        r.case();
+        let d = || format!("points {:?} {}", pts.iter().map(|p| (p.x, p.y, p.z)).collect::<Vec<_>>(), it.name);
+        let a = transform_points(&pts, t);
+        let b = (&pts[..]).transform_by(t);
+        let c = (&pts).transform_by(t);
+        r.check(a.len() == pts.len() && b.len() == pts.len() && c.len() == pts.len(), "transform_points / TransformBy keep the number of points", d);
+        for k in 0..pts.len().min(a.len()).min(b.len()).min(c.len()) {
+            r.check(cp3(&a[k], &(t * pts[k])) && cp3(&b[k], &(t * pts[k])) && cp3(&c[k], &(t * pts[k])), "transform_points / TransformBy move point k by T", d);
+        }
+        for (has_n, has_c) in [(true, true), (true, false), (false, true), (false, false)] {
+            let mut pc = PointCloud::try_new(pts.clone(), if has_n { Some(normals.clone()) } else { None }, if has_c { Some(colors.clone()) } else { None }).unwrap();
+            let dc = || format!("PointCloud(normals={}, colors={}) {}", has_n, has_c, d());
+            pc.transform(t);
+            r.check(pc.points().len() == pts.len() && pc.points().iter().zip(pts.iter()).all(|(m, p)| cp3(m, &(t * p))), "PointCloud::transform: every point moves by T", dc);
+            r.check(pc.normals().is_some() == has_n && pc.normals().map_or(true, |ns| ns.len() == normals.len() && ns.iter().zip(normals.iter()).all(|(m, n)| cv3(&m.into_inner(), &(t * n.into_inner())))), "PointCloud::transform: normals only rotate", dc);
+            r.check(pc.colors().is_some() == has_c && pc.colors().map_or(true, |cs| cs == &colors[..]), "PointCloud::transform: colours are untouched", dc);
+            let mut seq = PointCloud::try_new(pts.clone(), if has_n { Some(normals.clone()) } else { None }, None).unwrap();
+            seq.transform(s); seq.transform(t);
+            let mut comp = PointCloud::try_new(pts.clone(), if has_n { Some(normals.clone()) } else { None }, None).unwrap();
+            comp.transform(&(t * s));
+            r.check(seq.points().iter().zip(comp.points().iter()).all(|(x, y)| cp3(x, y)) && seq.normals().map_or(true, |ns| ns.iter().zip(comp.normals().unwrap().iter()).all(|(x, y)| cv3(x, y))), "PointCloud: transforming by a composition equals transforming in sequence", dc);
+            pc.transform(&t.inverse());
+            r.check(pc.points().iter().zip(pts.iter()).all(|(m, p)| cp3(m, p)) && pc.normals().map_or(true, |ns| ns.iter().zip(normals.iter()).all(|(m, n)| cv3(m, n))), "PointCloud: T then T^-1 restores points and normals", dc);
+        }
+    }
+}
+
+// ------------------------------------------------------------------------------------------------ distances (2D <-> 3D lifting)
+fn lift2(s: &Iso2) -> Iso3 { Iso3::from_parts(Translation3::new(s.translation.x, s.translation.y, 0.0), UnitQuaternion::from_axis_angle(&Vector3::z_axis(), s.rotation.angle())) }
+fn distances(r: &mut Report, isos: &[I3], isos2: &[I2]) {
+    let a = p2(0.5, 1.0); let b = p2(2.0, 3.0);
+    let ds: Vec<(&str, Distance2)> = vec![
+        ("direction None", Distance2::new(a, b, None)), ("direction +x", Distance2::new(a, b, Some(u2(1.0, 0.0)))),
+        ("direction (3,4)/5", Distance2::new(a, b, Some(u2(3.0, 4.0)))), ("direction against a->b", Distance2::new(a, b, Some(u2(-1.5, -2.0)))),
+        ("direction -y", Distance2::new(p2(-1.0, 0.25), p2(4.0, 1.0), Some(u2(0.0, -1.0)))),
+    ];
+    for (i, it) in isos.iter().enumerate() { let t = &it.t;
+        for (n, d2) in ds.iter() {
+            r.case();
+            let d = || format!("Distance2 {{ a: {:?}, b: {:?}, {} }} (value {}) {}", d2.a.coords.as_slice(), d2.b.coords.as_slice(), n, d2.value(), it.name);
+            let d3 = d2.to_3d(t);
+            r.check(cp3(&d3.a, &(t * d2.a.to_3d())) && cp3(&d3.b, &(t * d2.b.to_3d())), "Distance2::to_3d: the end points are lifted (z = 0) and moved by T", d);
+            r.check(cv3(&d3.direction.into_inner(), &(t * d2.direction.into_inner().to_3d())), "Distance2::to_3d: the measurement direction is lifted and only rotated", d);
+            r.check(close(d3.value(), d2.value()), "Distance2::to_3d: the measured value is invariant", d);
+            let back = d3.to_2d(&t.inverse());
+            r.check(cp2(&back.a, &d2.a) && cp2(&back.b, &d2.b) && cv2(&back.direction, &d2.direction) && close(back.value(), d2.value()), "Distance3::to_2d(T^-1) after Distance2::to_3d(T) restores end points, direction and value", d);
+            // Distance3::to_2d on its own: a measurement lying in the image of the xy plane under T, brought back by S.T^-1 (S in-plane)
+            let s = &isos2[partner(i, isos2.len())];
+            let m3 = Distance3::new(t * d2.a.to_3d(), t * d2.b.to_3d(), Some(UnitVec3::new_normalize(t * d2.direction.into_inner().to_3d())));
+            let m2 = m3.to_2d(&(lift2(&s.t) * t.inverse()));
+            r.check(cp2(&m2.a, &(s.t * d2.a)) && cp2(&m2.b, &(s.t * d2.b)), "Distance3::to_2d: the end points are moved by T and projected to z = 0", || format!("{} in-plane {}", d(), s.name));
+            r.check(cv2(&m2.direction.into_inner(), &(s.t * d2.direction.into_inner())), "Distance3::to_2d: the measurement direction only rotates", || format!("{} in-plane {}", d(), s.name));
+            r.check(close(m2.value(), d2.value()), "Distance3::to_2d: the measured value is invariant", || format!("{} in-plane {}", d(), s.name));
+            let rv = d2.reversed().to_3d(t);
+            r.check(close(rv.value(), d2.value()), "Distance2::reversed then to_3d keeps the value", d);
+            let c = d3.center(); let c2 = d2.center();
+            r.check(cp3(&c.point, &(t * c2.point.to_3d())) && cv3(&c.normal, &(t * c2.normal.into_inner().to_3d())), "Distance::center commutes with the lifting", d);
+        }
+    }
+}
+
+// ------------------------------------------------------------------------------------------------ curves
+struct C2Case { name: &'static str, pts: Vec<Point2>, tol: f64, fc: bool }
+fn curve2_cases() -> Vec<C2Case> { vec![
+    C2Case { name: "open polyline", pts: vec![p2(0.0, 0.0), p2(1.0, 0.0), p2(1.5, 1.0), p2(3.0, 1.25)], tol: 1e-6, fc: false },
+    C2Case { name: "closed square", pts: vec![p2(0.0, 0.0), p2(2.0, 0.0), p2(2.0, 2.0), p2(0.0, 2.0), p2(0.0, 0.0)], tol: 1e-6, fc: false },
+    C2Case { name: "force-closed triangle", pts: vec![p2(0.0, 0.0), p2(2.0, 0.0), p2(1.0, 1.5)], tol: 1e-6, fc: true },
+    C2Case { name: "vertices 0.12 apart along x, tol 0.1 (kept)", pts: vec![p2(0.0, 0.0), p2(1.0, 0.0), p2(1.12, 0.0), p2(2.0, 1.0)], tol: 0.1, fc: false },
+    C2Case { name: "vertices 0.085*sqrt(2) apart along the diagonal, tol 0.1 (kept)", pts: vec![p2(0.0, 0.0), p2(1.0, 0.0), p2(1.085, 0.085), p2(2.0, 1.5)], tol: 0.1, fc: false },
+    C2Case { name: "vertices 0.08 apart along y, tol 0.1 (merged)", pts: vec![p2(0.0, 0.0), p2(1.0, 0.0), p2(1.0, 0.08), p2(2.0, 1.0)], tol: 0.1, fc: false },
+    C2Case { name: "vertices 0.05*sqrt(2) apart along the diagonal, tol 0.1 (merged)", pts: vec![p2(0.0, 0.0), p2(1.0, 0.0), p2(1.05, 0.05), p2(2.0, 1.5)], tol: 0.1, fc: false },
+] }
+fn curves2(r: &mut Report, isos: &[I2]) {
+    let fr = [0.0, 0.125, 0.25, 0.5, 0.8125, 1.0];
+    let qs = [p2(0.75, 0.5), p2(2.5, 0.25), p2(1.25, 2.75), p2(-1.0, 0.75)];
+    for cs in curve2_cases().iter() {
+        let c = Curve2::from_points(&cs.pts, cs.tol, cs.fc).unwrap();
+        for (i, it) in isos.iter().enumerate() { let t = &it.t; let s = &isos[partner(i, isos.len())].t;
+            r.case();
+            let d = || format!("Curve2::from_points({:?}, tol={}, force_closed={}) [{}] {}", cs.pts.iter().map(|p| (p.x, p.y)).collect::<Vec<_>>(), cs.tol, cs.fc, cs.name, it.name);
+            let m = c.transformed_by(t);
+            r.check(m.count() == c.count(), "Curve2::transformed_by keeps the vertex count", d);
+            r.check(m.count() == c.count() && m.points().iter().zip(c.points().iter()).all(|(a, b)| cp2(a, &(t * b))), "Curve2::transformed_by moves every vertex by T", d);
+            r.check(close(m.length(), c.length()), "Curve2: length is invariant under transformed_by", d);
+            r.check(m.lengths().len() == c.lengths().len() && m.lengths().iter().zip(c.lengths().iter()).all(|(a, b)| close(*a, *b)), "Curve2: cumulative vertex lengths are invariant under transformed_by", d);
+            r.check(m.is_closed() == c.is_closed() && m.tol() == c.tol(), "Curve2::transformed_by keeps closedness and tolerance", d);
+            // the same points given in another frame build the same curve (count, length)
+            let moved: Vec<Point2> = cs.pts.iter().map(|p| t * p).collect();
+            match Curve2::from_points(&moved, cs.tol, cs.fc) {
+                Ok(f) => {
+                    r.check(f.count() == c.count(), "Curve2 built from the points given in another frame has the same vertex count", d);
+                    r.check(close(f.length(), c.length()), "Curve2 built from the points given in another frame has the same length", d);
+                    r.check(f.is_closed() == c.is_closed(), "Curve2 built from the points given in another frame has the same closedness", d);
+                }
+                Err(_) => r.check(false, "Curve2 can be built from the points given in another frame", d),
+            }
+            for f in fr {
+                let df = || format!("{} fraction {}", d(), f);
+                match (c.at_fraction(f), m.at_fraction(f)) {
+                    (Some(a), Some(b)) => {
+                        r.check(cp2(&b.point(), &(t * a.point())), "Curve2: the point at a fraction of the length commutes with T", df);
+                        r.check(close(b.length_along(), a.length_along()), "Curve2: the station length at a fraction is invariant", df);
+                        if f > 0.0 && f < 1.0 && a.fraction() > 1e-6 && a.fraction() < 1.0 - 1e-6 {
+                            r.check(cv2(&b.direction().into_inner(), &(t * a.direction().into_inner())), "Curve2: the direction at a station only rotates", df);
+                        }
+                    }
+                    (None, None) => {}
+                    _ => r.check(false, "Curve2: a station exists at a fraction in both frames or in neither", df),
+                }
+            }
+            for q in qs.iter() { let tq = t * q;
+                let dq = || format!("{} query {:?}", d(), q.coords.as_slice());
+                r.check(close(m.dist_to_point(&tq), c.dist_to_point(q)), "Curve2::dist_to_point is invariant", dq);
+                let a = c.at_closest_to_point(q); let b = m.at_closest_to_point(&tq);
+                r.check(cp2(&b.point(), &(t * a.point())), "Curve2::at_closest_to_point commutes with T", dq);
+                if a.fraction() > 1e-6 && a.fraction() < 1.0 - 1e-6 {
+                    r.check(b.index() == a.index() && close(b.fraction(), a.fraction()) && close(b.length_along(), a.length_along()), "Curve2::at_closest_to_point: the station (edge, fraction, length) is invariant", dq);
+                }
+            }
+            let back = m.transformed_by(&t.inverse());
+            r.check(back.count() == c.count() && back.points().iter().zip(c.points().iter()).all(|(a, b)| cp2(a, b)) && close(back.length(), c.length()), "Curve2: T then T^-1 restores the curve", d);
+            let c1 = c.transformed_by(&(t * s)); let c2 = c.transformed_by(s).transformed_by(t);
+            r.check(c1.count() == c2.count() && c1.points().iter().zip(c2.points().iter()).all(|(a, b)| cp2(a, b)), "Curve2: transforming by a composition equals transforming in sequence", d);
+        }
+    }
+}
+struct C3Case { name: &'static str, pts: Vec<Point3>, tol: f64 }
+fn curve3_cases() -> Vec<C3Case> { vec![
+    C3Case { name: "open polyline", pts: vec![p3(0.0, 0.0, 0.0), p3(1.0, 0.0, 0.5), p3(1.5, 1.0, 0.5), p3(3.0, 1.25, -1.0)], tol: 1e-6 },
+    C3Case { name: "closed loop", pts: vec![p3(0.0, 0.0, 0.0), p3(2.0, 0.0, 0.0), p3(2.0, 2.0, 1.0), p3(0.0, 2.0, 1.0), p3(0.0, 0.0, 0.0)], tol: 1e-6 },
+    C3Case { name: "vertices 0.12 apart along x, tol 0.1 (kept)", pts: vec![p3(0.0, 0.0, 0.0), p3(1.0, 0.0, 0.0), p3(1.12, 0.0, 0.0), p3(2.0, 1.0, 1.0)], tol: 0.1 },
+    C3Case { name: "vertices 0.07*sqrt(3) apart along (1,1,1), tol 0.1 (kept)", pts: vec![p3(0.0, 0.0, 0.0), p3(1.0, 0.0, 0.0), p3(1.07, 0.07, 0.07), p3(2.0, 1.0, 1.5)], tol: 0.1 },
+    C3Case { name: "vertices 0.085*sqrt(2) apart along (0,1,1), tol 0.1 (kept)", pts: vec![p3(0.0, 0.0, 0.0), p3(1.0, 0.0, 0.0), p3(1.0, 0.085, 0.085), p3(2.0, 1.0, 1.5)], tol: 0.1 },
+    C3Case { name: "vertices 0.08 apart along z, tol 0.1 (merged)", pts: vec![p3(0.0, 0.0, 0.0), p3(1.0, 0.0, 0.0), p3(1.0, 0.0, 0.08), p3(2.0, 1.0, 1.0)], tol: 0.1 },
+    C3Case { name: "vertices 0.05*sqrt(3) apart along (1,1,1), tol 0.1 (merged)", pts: vec![p3(0.0, 0.0, 0.0), p3(1.0, 0.0, 0.0), p3(1.05, 0.05, 0.05), p3(2.0, 1.0, 1.5)], tol: 0.1 },
+] }
+fn curves3(r: &mut Report, isos: &[I3]) {
+    let fr = [0.0, 0.125, 0.25, 0.5, 0.8125, 1.0];
+    let qs = [p3(0.75, 0.5, 0.125), p3(2.5, 0.25, -0.5), p3(1.25, 2.75, 1.0), p3(-1.0, 0.75, 2.0)];
+    for cs in curve3_cases().iter() {
+        let c = Curve3::from_points(&cs.pts, cs.tol).unwrap();
+        for (i, it) in isos.iter().enumerate() { let t = &it.t; let s = &isos[partner(i, isos.len())].t;
+            r.case();
+            let d = || format!("Curve3::from_points({:?}, tol={}) [{}] {}", cs.pts.iter().map(|p| (p.x, p.y, p.z)).collect::<Vec<_>>(), cs.tol, cs.name, it.name);
+            let m = c.transformed_by(t);
+            r.check(m.count() == c.count(), "Curve3::transformed_by keeps the vertex count", d);
+            r.check(m.count() == c.count() && m.points().iter().zip(c.points().iter()).all(|(a, b)| cp3(a, &(t * b))), "Curve3::transformed_by moves every vertex by T", d);
+            r.check(close(m.length(), c.length()), "Curve3: length is invariant under transformed_by", d);
+            r.check(m.lengths().len() == c.lengths().len() && m.lengths().iter().zip(c.lengths().iter()).all(|(a, b)| close(*a, *b)), "Curve3: cumulative vertex lengths are invariant under transformed_by", d);
+            r.check(m.tol() == c.tol(), "Curve3::transformed_by keeps the tolerance", d);
+            let moved: Vec<Point3> = cs.pts.iter().map(|p| t * p).collect();
+            match Curve3::from_points(&moved, cs.tol) {
+                Ok(f) => {
+                    r.check(f.count() == c.count(), "Curve3 built from the points given in another frame has the same vertex count", d);
+                    r.check(close(f.length(), c.length()), "Curve3 built from the points given in another frame has the same length", d);
+                }
+                Err(_) => r.check(false, "Curve3 can be built from the points given in another frame", d),
+            }
+            for f in fr {
+                let df = || format!("{} fraction {}", d(), f);
+                match (c.at_fraction(f), m.at_fraction(f)) {
+                    (Some(a), Some(b)) => {
+                        r.check(cp3(&b.point(), &(t * a.point())), "Curve3: the point at a fraction of the length commutes with T", df);
+                        r.check(close(b.length_along(), a.length_along()), "Curve3: the station length at a fraction is invariant", df);
+                        if f > 0.0 && f < 1.0 && a.fraction() > 1e-6 && a.fraction() < 1.0 - 1e-6 {
+                            r.check(cv3(&b.direction().into_inner(), &(t * a.direction().into_inner())), "Curve3: the direction at a station only rotates", df);
+                        }
+                    }
+                    (None, None) => {}
+                    _ => r.check(false, "Curve3: a station exists at a fraction in both frames or in neither", df),
+                }
+            }
+            for q in qs.iter() { let tq = t * q;
+                let dq = || format!("{} query {:?}", d(), q.coords.as_slice());
+                r.check(close(m.dist_to_point(&tq), c.dist_to_point(q)), "Curve3::dist_to_point is invariant", dq);
+                let a = c.at_closest_to_point(q); let b = m.at_closest_to_point(&tq);
+                r.check(cp3(&b.point(), &(t * a.point())), "Curve3::at_closest_to_point commutes with T", dq);
+                if a.fraction() > 1e-6 && a.fraction() < 1.0 - 1e-6 {
+                    r.check(b.index() == a.index() && close(b.fraction(), a.fraction()) && close(b.length_along(), a.length_along()), "Curve3::at_closest_to_point: the station (edge, fraction, length) is invariant", dq);
+                }
+            }
+            let back = m.transformed_by(&t.inverse());
+            r.check(back.count() == c.count() && back.points().iter().zip(c.points().iter()).all(|(a, b)| cp3(a, b)) && close(back.length(), c.length()), "Curve3: T then T^-1 restores the curve", d);
+            let c1 = c.transformed_by(&(t * s)); let c2 = c.transformed_by(s).transformed_by(t);
+            r.check(c1.count() == c2.count() && c1.points().iter().zip(c2.points().iter()).all(|(a, b)| cp3(a, b)), "Curve3: transforming by a composition equals transforming in sequence", d);
+        }
+    }
+}
+
+// ------------------------------------------------------------------------------------------------ meshes
+// kind: 0 = the closest point is interior to one triangle (no tie), 1 = on an edge / corner of the box at equal angles to
+// the adjacent faces (the reported face may differ between frames; distance, closest point and acceptance may not)
+struct MQ { q: Point3, kind: u8, name: &'static str }
+fn mesh_queries() -> Vec<MQ> { vec![
+    MQ { q: p3(0.5, 1.25, 5.5), kind: 0, name: "above the z=4 face" },
+    MQ { q: p3(-1.5, 1.0, 1.25), kind: 0, name: "beside the x=0 face" },
+    MQ { q: p3(1.0, 4.25, 0.5), kind: 0, name: "beside the y=3 face" },
+    MQ { q: p3(0.5, 1.0, 1.25), kind: 0, name: "inside, nearest to the x=0 face" },
+    MQ { q: p3(3.0, 4.0, 1.5), kind: 1, name: "off the edge x=2,y=3 along the diagonal" },
+    MQ { q: p3(3.0, 4.0, 5.0), kind: 1, name: "off the corner (2,3,4) along the diagonal" },
+    MQ { q: p3(0.5, 1.25, 10.0), kind: 0, name: "far above the z=4 face" },
+] }
+fn meshes(r: &mut Report, isos: &[I3]) {
+    let params = [(3.0, 0.5), (3.0, 1.0), (0.75, 0.5), (100.0, 0.125)];
+    for solid in [false, true] {
+        let base = Mesh::create_box(2.0, 3.0, 4.0, solid);
+        for (i, it) in isos.iter().enumerate() { let t = &it.t; let s = &isos[partner(i, isos.len())].t; let ti = t.inverse();
+            r.case();
+            let d = || format!("Mesh::create_box(2, 3, 4, is_solid={}) {}", solid, it.name);
+            let mut moved = base.clone();
+            moved.transform(t);
+            r.check(moved.vertices().len() == base.vertices().len() && moved.vertices().iter().zip(base.vertices().iter()).all(|(a, b)| cp3(a, &(t * b))), "Mesh::transform moves every vertex by T", d);
+            r.check(moved.faces() == base.faces(), "Mesh::transform keeps the faces", d);
+            let mut back = moved.clone(); back.transform(&ti);
+            r.check(back.vertices().iter().zip(base.vertices().iter()).all(|(a, b)| cp3(a, b)), "Mesh: T then T^-1 restores the vertices", d);
+            let mut seq = base.clone(); seq.transform(s); seq.transform(t);
+            let mut comp = base.clone(); comp.transform(&(t * s));
+            r.check(seq.vertices().iter().zip(comp.vertices().iter()).all(|(a, b)| cp3(a, b)), "Mesh: transforming by a composition equals transforming in sequence", d);
+            for mq in mesh_queries().iter() { let q = &mq.q; let tq = t * q;
+                let dq = || format!("{} query {:?} ({})", d(), q.coords.as_slice(), mq.name);
+                let cl = base.point_closest_to(q);
+                r.check(cp3(&moved.point_closest_to(&tq), &(t * cl)), "Mesh::point_closest_to commutes with T", dq);
+                r.check(close(dist(&moved.point_closest_to(&tq), &tq), dist(&cl, q)), "point-to-mesh distance is invariant", dq);
+                if mq.kind == 0 {
+                    let a = base.surf_closest_to(q); let b = moved.surf_closest_to(&tq);
+                    r.check(cp3(&b.point, &(t * a.point)) && cv3(&b.normal.into_inner(), &(t * a.normal.into_inner())), "Mesh::surf_closest_to commutes with T (point moves, normal only rotates)", dq);
+                }
+                for (mode, mname) in [(DistMode::ToPoint, "ToPoint"), (DistMode::ToPlane, "ToPlane")] {
+                    if mq.kind != 0 && mname == "ToPlane" { continue; }
+                    let dm = || format!("{} mode {}", dq(), mname);
+                    let a = base.measure_point_deviation(q, match mname { "ToPoint" => DistMode::ToPoint, _ => DistMode::ToPlane });
+                    let b = moved.measure_point_deviation(&tq, mode);
+                    r.check(close(b.value(), a.value()), "Mesh::measure_point_deviation: the signed deviation is invariant", dm);
+                    r.check(cp3(&b.a, &(t * a.a)) && cp3(&b.b, &(t * a.b)), "Mesh::measure_point_deviation: the end points move by T", dm);
+                    if dist(&a.a, &a.b) > 1e-3 { r.check(cv3(&b.direction.into_inner(), &(t * a.direction.into_inner())), "Mesh::measure_point_deviation: the direction only rotates", dm); }
+                }
+                // the query given in another frame together with the frame-to-mesh isometry
+                let q_other = ti * q;
+                for (max_dist, max_angle) in params {
+                    let dp = || format!("{} max_dist {} max_angle {}", dq(), max_dist, max_angle);
+                    let direct = base.project_with_tol(q, max_dist, max_angle, None);
+                    let framed = base.project_with_tol(&q_other, max_dist, max_angle, Some(t));
+                    r.check(direct.is_some() == framed.is_some(), "Mesh::project_with_tol: a query given in another frame (Some(T)) is accepted exactly when the same point given directly is", dp);
+                    if let (Some(a), Some(b)) = (&direct, &framed) {
+                        r.check(cp3(&a.0.point, &b.0.point) && (mq.kind != 0 || a.1 == b.1), "Mesh::project_with_tol: a query given in another frame (Some(T)) projects to the same point and face", dp);
+                    }
+                    let on_moved = moved.project_with_tol(&tq, max_dist, max_angle, None);
+                    r.check(direct.is_some() == on_moved.is_some(), "Mesh::project_with_tol: moving mesh and query together does not change acceptance", dp);
+                    if let (Some(a), Some(b)) = (&direct, &on_moved) {
+                        r.check(cp3(&(t * a.0.point), &b.0.point) && (mq.kind != 0 || a.1 == b.1), "Mesh::project_with_tol: moving mesh and query together moves the projection by T", dp);
+                    }
+                    let dm = base.project_with_max_dist(q, max_dist); let mm = moved.project_with_max_dist(&tq, max_dist);
+                    r.check(dm.is_some() == mm.is_some(), "Mesh::project_with_max_dist: moving mesh and query together does not change the answer", dp);
+                }
+                let all = [*q, p3(0.5, 1.25, 5.5), p3(3.0, 4.0, 5.0)];
+                let all_other: Vec<Point3> = all.iter().map(|p| ti * p).collect();
+                r.check(base.indices_in_tol(&all, 3.0, 0.5, None) == base.indices_in_tol(&all_other, 3.0, 0.5, Some(t)), "Mesh::indices_in_tol: points given in another frame (Some(T)) select the same indices", dq);
+            }
+        }
+    }
+}
+
+pub fn run() -> Option<Report> {
+    let mut r = Report::new("isometries: 19 rotations (identity, quarter turns about x/y/z, 3 more cube-group elements, 30/45 degrees about an axis, 0.7 rad about (1,2,3), (1,1,1)->x) x 4 translations (up to (1000,-500,250)) in 3D, 8 rotations x 3 translations in 2D; entities with small integer / dyadic coordinates: 3 surface points per dimension, 4 planes, 3 segments, a 4-point cloud (with/without normals and colours), 5 Distance2 (direction None / explicit / against a->b), 7 Curve2 and 7 Curve3 point lists (open, closed, force-closed, vertices spaced 0.7..1.2 tol along axes and diagonals), a 2x3x4 box mesh (solid and not) with 7 tie-free queries; 3-4 query points per entity; all comparisons to 1e-9 relative");
+    let i3 = isos3(); let i2 = isos2();
+    surface_points3(&mut r, &i3);
+    surface_points2(&mut r, &i2);
+    planes(&mut r, &i3);
+    segments(&mut r, &i2);
+    point_lists(&mut r, &i3);
+    distances(&mut r, &i3, &i2);
+    curves2(&mut r, &i2);
+    curves3(&mut r, &i3);
+    meshes(&mut r, &i3);
+    Some(r)
+}
